@@ -604,22 +604,33 @@ rawDumpTable(const TranslationTableHeader *t) {
 	printf("RAW t %u %u %u %d %d", rawHdr, t->bytesUsed, t->tableSize, RULEBASE,
 			(int)sizeof(TranslationTableCharacter));
 	if (t->bytesUsed > t->tableSize) rawUsed = t->tableSize;
+	/* an indicator slot designates a rule of exactly the opcode the slot is for (expect = 1000 + opcode) */
 	for (i = 0; i < MAX_EMPH_CLASSES + MAX_MODES; i++)
 		for (k = 0; k < 9; k++)
-			if (t->emphRules[i][k] && k != lenPhraseOffset) rawRule(t->emphRules[i][k], 0, "slot:emph");
+			if (t->emphRules[i][k] && k != lenPhraseOffset) {
+				static const int emphOp[8] = { CTO_BegEmphPhrase, CTO_EndEmphPhrase, CTO_EndEmphPhrase,
+					CTO_BegEmph, CTO_EndEmph, CTO_EmphLetter, CTO_BegEmphWord, CTO_EndEmphWord };
+				static const int capsOp[8] = { CTO_BegCapsPhrase, CTO_EndCapsPhraseBefore,
+					CTO_EndCapsPhraseAfter, CTO_BegCaps, CTO_EndCaps, CTO_CapsLetter, CTO_BegCapsWord,
+					CTO_EndCapsWord };
+				static const int modeOp[8] = { CTO_BegModePhrase, CTO_EndModePhrase, CTO_EndModePhrase,
+					CTO_BegMode, CTO_EndMode, CTO_ModeLetter, CTO_BegModeWord, CTO_EndModeWord };
+				const int *ops = i < MAX_EMPH_CLASSES ? emphOp : i == MAX_EMPH_CLASSES ? capsOp : modeOp;
+				rawRule(t->emphRules[i][k], 1000 + ops[k], "slot:emph");
+			}
 	rawCharBuckets(t->characters, 0);
 	rawCharBuckets(t->dots, 1);
 	for (i = 0; i < HASHNUM; i++) rawChain(t->forRules[i], 0, "bucket:for");
 	for (i = 0; i < HASHNUM; i++) rawChain(t->backRules[i], 1, "bucket:back");
 	for (i = 0; i <= MAXPASS; i++) rawChain(t->forPassRules[i], 0, "bucket:forpass");
 	for (i = 0; i <= MAXPASS; i++) rawChain(t->backPassRules[i], 1, "bucket:backpass");
-	if (t->undefined) rawRule(t->undefined, 0, "slot:undefined");
-	if (t->letterSign) rawRule(t->letterSign, 0, "slot:letterSign");
-	if (t->numberSign) rawRule(t->numberSign, 0, "slot:numberSign");
-	if (t->noContractSign) rawRule(t->noContractSign, 0, "slot:noContractSign");
-	if (t->noNumberSign) rawRule(t->noNumberSign, 0, "slot:noNumberSign");
-	if (t->begComp) rawRule(t->begComp, 0, "slot:begComp");
-	if (t->endComp) rawRule(t->endComp, 0, "slot:endComp");
+	if (t->undefined) rawRule(t->undefined, 1000 + CTO_Undefined, "slot:undefined");
+	if (t->letterSign) rawRule(t->letterSign, 1000 + CTO_LetterSign, "slot:letterSign");
+	if (t->numberSign) rawRule(t->numberSign, 1000 + CTO_NumberSign, "slot:numberSign");
+	if (t->noContractSign) rawRule(t->noContractSign, 1000 + CTO_NoContractSign, "slot:noContractSign");
+	if (t->noNumberSign) rawRule(t->noNumberSign, 1000 + CTO_NoNumberSign, "slot:noNumberSign");
+	if (t->begComp) rawRule(t->begComp, 1000 + CTO_BegComp, "slot:begComp");
+	if (t->endComp) rawRule(t->endComp, 1000 + CTO_EndComp, "slot:endComp");
 	if (t->capsNoCont) rawRule((TranslationTableOffset)t->capsNoCont, 0, "slot:capsNoCont");
 	rawHyphenation(t);
 	free(rawSeen);
